@@ -18,9 +18,17 @@ FUNCTIONS = [
     'src.ir.type_utils._find_candidate_type_args',
     'src.ir.type_utils._compute_type_variable_assignments',
     'src.ir.type_utils._get_type_arg_variance',
+    'src.generators.generator.Generator.gen_type_params',
+    'src.generators.generator.Generator.gen_func_decl',
+    'src.generators.generator.Generator.gen_class_decl',
+    'src.generators.generator.Generator._create_type_params_from_etype',
 ]
+# calls whose arguments carry a switch decision: every call site in src/ must lie in a function with a site_call clause
+SITE_CALLS = {'gen_type_params': ['J5-decision', 'J6-decision']}
 SITE_CLASSES = {'WildCardType': ['J1', 'J2']}
 TRUSTED = [
+    'RandomUtils.bool(prob) (src/utils.py: `self.r.random() < prob`, random() in [0, 1)) is never True for prob == 0; the '
+    'probabilities are modelled as integers, only `== 0` is used',
     'site induction (DESIGN 2.7): the invariants J1/J2 hold of every object that exists because they are established at every '
     'construction site of WildCardType (enumerated from the AST of src/ and hephaestus.py on every run); copies made by '
     'copy/deepcopy/pickle have the class and the variance of the original',
@@ -34,12 +42,16 @@ TRUSTED = [
 ASSUMPTIONS = [
     'proved: J1 (no use-site projection exists when use-site variance is disabled) and J2 (no contravariant projection when '
     'use-site contravariance is disabled) at all 5 construction sites, and the switch clauses of _get_type_arg_variance. '
-    'The clauses about type-parameter bounds, parameterized functions and declaration-site variance (J3-J6) are the '
-    'bounded part (generated programs under the 16 switch combinations)',
+    'For the clauses about type-parameter bounds, parameterized functions and declaration-site variance (J3-J6) only the '
+    'DECISION POINTS of the generator are proved: gen_type_params gives no bound when cfg.prob.bounded_type_parameters == 0 '
+    'and no variance unless asked; gen_func_decl chooses no type parameters when cfg.prob.parameterized_functions == 0 and '
+    'never asks for variance; every call of gen_type_params in src/ asks for variance only for kotlin/scala. That the later '
+    'copies / substitutions / TypeUpdater keep J3-J6, and the CLI wiring of src/args.py, are the bounded part (generated '
+    'programs under the 16 switch combinations)',
 ]
-NOT_UNDER_CONTRACT = ['J3-J6 sites: Generator.gen_type_params, gen_func_decl, _create_type_params_from_etype, '
-                      '_gen_type_params_from_existing, _remove_unused_type_params, ast.FunctionDeclaration.__init__, '
-                      'TypeUpdater.update_type (bounded only)']
+NOT_UNDER_CONTRACT = ['J3-J6 propagation sites: _gen_type_params_from_existing, _remove_unused_type_params, '
+                      'ast.FunctionDeclaration.__init__, TypeUpdater.update_type, substitution copies (bounded only)',
+                      'src/args.py (CLI wiring: bounded only)']
 
 
 def custom_proof(tier):
@@ -47,9 +59,12 @@ def custom_proof(tier):
     from pyvc import contracts as C
     sc = C.load_dir(os.path.join(HERE, 'contracts'), SIDECARS)
     covered = {}
+    covered_calls = {}
     for q, c in sc.contracts.items():
         for cls, name, _ in c.sites:
             covered.setdefault(q, set()).add(cls)
+        for callee, name, _ in c.site_calls:
+            covered_calls.setdefault(q, set()).add(callee)
     out = []
     files = sorted(glob.glob(os.path.join(REPO, 'src', '**', '*.py'), recursive=True)) + [os.path.join(REPO, 'hephaestus.py')]
     switch_attrs = {'use_site_variance', 'use_site_contravariance', 'bounded_type_parameters', 'parameterized_functions'}
@@ -66,6 +81,12 @@ def custom_proof(tier):
                 if isinstance(ch, ast.Call):
                     fn = ch.func
                     nm = fn.id if isinstance(fn, ast.Name) else (fn.attr if isinstance(fn, ast.Attribute) else None)
+                    if nm in SITE_CALLS:
+                        owner = next((k for k in covered_calls if q == k or q.startswith(k + '.')), None)
+                        ok = owner is not None and nm in covered_calls[owner] and owner in FUNCTIONS
+                        out.append(dict(name='%s/call-covered[%s line-independent]' % (q, nm), function=q, lineno=ch.lineno,
+                                        kind='proof', status='proved' if ok else 'failed', secs=0, backend='syntactic',
+                                        reason='' if ok else 'call of %s in a function without a site_call obligation' % nm))
                     if nm in SITE_CLASSES:
                         # nested defs are executed with their outermost contract function
                         owner = next((k for k in covered if q == k or q.startswith(k + '.')), None)
